@@ -94,14 +94,18 @@ func driveC08(p *Pool, r *evid.Run) {
 		return res
 	}
 	for _, pl := range plans {
-		var scns, deep []Scn
+		var scns, deep, deepest []Scn
 		for _, pol := range []string{"run", "rr", "recv", "send"} {
 			for _, cp := range []int{1, 2, 64} {
 				sc := Scn{Kind: "xfer", Src: pl.src, Dst: pl.dst, Cap: cp, Policy: pol, Notify: true, SelectAlts: true, Progress: true}
 				scns = append(scns, sc)
-				// quick: the deepest bound only around two policies and the two extreme capacities
-				if r.Tier == "thorough" || ((pol == "run" || pol == "recv") && cp != 2) {
+				// bound 2 around two policies and the two extreme capacities (measured: one scenario of the smallest
+				// transfer is 420 executions at bound 1, 89 000 at bound 2, about 18 million at bound 3)
+				if (pol == "run" || pol == "recv") && cp != 2 {
 					deep = append(deep, sc)
+				}
+				if pol == "run" && cp == 1 {
+					deepest = append(deepest, sc)
 				}
 			}
 		}
@@ -112,10 +116,13 @@ func driveC08(p *Pool, r *evid.Run) {
 				r.Exhaustive = false
 				break
 			}
-			if b < pl.bound || pl.bound == 1 {
+			switch {
+			case b == 1, b == 2 && r.Tier == "thorough" && pl.src == "small":
 				ex(scns, b)
-			} else {
+			case b == 2:
 				ex(deep, b)
+			default:
+				ex(deepest, b) // bound 3: one base schedule of the smallest transfer
 			}
 			done = b
 		}
@@ -137,6 +144,10 @@ func driveC08(p *Pool, r *evid.Run) {
 		b := 1
 		if r.Tier == "thorough" && pl.src == "small" {
 			b = 2 // the deeper bound around the slow-site policies on the smallest transfer only
+			if drvPastDeadline() {
+				b = 1
+				r.Exhaustive = false
+			}
 		}
 		ex(slow, b)
 		r.Set("slow_roles_"+pl.src, probe[0].Roles)
